@@ -7,7 +7,8 @@ PROP = dict(
                        "no_two_nonseed_same_url (after preprocess one non-seed node per URL)",
                        "store_monotone (no entry lost or downgraded, also across Close/Start)",
                        "seen_not_requested (seen nodes carry no request, the others are PreProcessed with one)",
-                       "key_deterministic (same parsed text, same canonical string)"]),
+                       "key_deterministic (same parsed text, same canonical string)",
+                       "store_exact (the store holds exactly the URLs checked so far, each with the strongest type it was checked as)"]),
         dict(driver="hqseen", binary="zseen", quick=500, thorough=12000, shard=50,
              monitors=["hq_seen_only_if_reported (marked only if the HQ answered and did not return the text sent for the node)",
                        "hq_seen_if_reported (a text the HQ did not return is skipped)",
